@@ -15,6 +15,11 @@ def check(rep):
     ER.rule_value_keyed_caches(ctx, rid="C09.NO-VALUE-KEYED-CACHE", modules={"binning/binning.py", "experiment_evaluator.py"})
     ER.rule_installed_function(ctx, rid="C09.ID-ONLY-NAME", strict=False, facets=("namespace", "installed"))
     ER.rule_whole_key(ctx, rid="C09.WHOLE-KEY")
+    # "does vary across salts": the salt hashed is the text between the quotes, so two salts written differently are two salts
+    from .c05 import rule_token_conv
+    salt_tokens = {p.syms[-1] for p in ctx.grammar.prods[1:] if len(p.syms) == 3 and p.syms[-1] in ctx.grammar.terminals
+                   and any(p.name in q.syms and q.name == ctx.grammar.by_name(ctx.grammar.start)[0].syms[0] for q in ctx.grammar.prods[1:])}
+    rule_token_conv(ctx, rid="C09.SALT-TOKEN-EXACT", only_tokens=salt_tokens or {"STRING_LITERAL"}, floor=1)
     ER.rule_position_slice(ctx, rid="C09.POSITION-FROM-KEY", parts=("arg",))
     rep.assume("NOT decided: that different salts/values give different groups (MD5's behaviour); decided: that they reach the hash")
     return ("Non-interference by def-use on the instantiated skeleton: free names of the key expression are exactly the sorted "
